@@ -296,10 +296,16 @@ def run(res, tier, seed, replay):
     plan = []
     if tier == "quick":
         # mod2 (asm, linkname, -X) always under -literals, where -X and literal obfuscation interact; mod1 under a rotating configuration
-        plan = [(["-literals"], "mod2", XFLAGS), (all_cfgs[seed % len(all_cfgs)], "mod1", [])]
+        plan = [(["-literals"], "mod2", XFLAGS, None), (all_cfgs[seed % len(all_cfgs)], "mod1", [], None)]
     else:
-        plan = [(g, m, f) for g in all_cfgs for (m, f) in (("mod1", []), ("mod2", XFLAGS))]
-    for gflags, mod, pkgflags in plan:
+        plan = [(g, m, f, None) for g in all_cfgs for (m, f) in (("mod1", []), ("mod2", XFLAGS))]
+    # a narrow GOGARBLE scope: plain packages embed, convert, alias and instantiate types of obfuscated ones and the other way round
+    narrow = ["example.com/corp/shapes,example.com/corp/gen", "example.com/corp/lib,example.com/corp/util", "example.com/corp,example.com/corp/iface"]
+    # (built with -tags=narrowscope, which leaves out the one construct known not to survive a scope boundary, see F14 below)
+    plan.append(([], "mod1", ["-tags=narrowscope"], narrow[0]))      # main (plain) embeds shapes.Point and instantiates gen types with it
+    if tier != "quick":
+        plan += [([], "mod1", ["-tags=narrowscope"], g) for g in narrow[1:]]
+    for gflags, mod, pkgflags, gogarble in plan:
         if True:
             src = os.path.join(vlib.VERIF, "corpus", mod)
             pdir = vlib.sub("c01-" + mod)
@@ -311,14 +317,29 @@ def run(res, tier, seed, replay):
             rp = e2e.plain_build(proj, pb, flags=pkgflags, caches=caches)
             if rp.returncode != 0:
                 raise RuntimeError("plain build of %s failed: %s" % (mod, rp.stderr.decode()[-500:]))
-            rg = e2e.garble_build(garble, proj, gb, garble_flags=gflags, flags=pkgflags, caches=caches, timeout=1500)
+            rg = e2e.garble_build(garble, proj, gb, garble_flags=gflags, flags=pkgflags, caches=caches, timeout=1500,
+                                  extra_env=({"GOGARBLE": gogarble} if gogarble else None))
             builds += 1
-            tag = "%s/%s" % (mod, " ".join(gflags))
+            tag = "%s/%s%s" % (mod, " ".join(gflags), (" GOGARBLE=" + gogarble) if gogarble else "")
             if rg.returncode != 0:
                 res.violation("garble-build-fails:" + tag, "garble %s build of corpus/%s fails while go build succeeds: %s" % (gflags, mod, rg.stderr.decode()[-600:]),
                               {"module": "corpus/" + mod, "flags": gflags, "go_flags": pkgflags})
                 continue
             nruns += diff_runs(tag, pb, gb, RUN_ARGS if mod == "mod1" else [[]], {"module": "corpus/" + mod, "flags": gflags, "go_flags": pkgflags})
+    # known finding F14: an anonymous struct type used on both sides of a GOGARBLE boundary
+    if tier != "quick" or seed % 2 == 1:
+        pdir = vlib.sub("c01-mod1")
+        proj = e2e.Project.__new__(e2e.Project)
+        proj.dir = pdir
+        rg = e2e.garble_build(garble, proj, os.path.join(pdir, "f14.bin"), caches=caches, timeout=1500, extra_env={"GOGARBLE": narrow[0]})
+        builds += 1
+        if rg.returncode != 0:
+            if b"cannot use struct" in rg.stderr:
+                res.violation("F14-anon-struct-gogarble-boundary", "GOGARBLE=%s garble build of corpus/mod1 fails while go build succeeds: %s" % (narrow[0], rg.stderr.decode()[-300:]),
+                              {"module": "corpus/mod1", "gogarble": narrow[0], "construct": "sh.Converted(struct{ X, Y int }{7, 8}) in a package outside GOGARBLE"})
+            else:
+                res.violation("garble-build-fails:mod1/untagged GOGARBLE=" + narrow[0], "garble build of corpus/mod1 with GOGARBLE=%s fails: %s" % (narrow[0], rg.stderr.decode()[-400:]),
+                              {"module": "corpus/mod1", "gogarble": narrow[0]})
     for gflags in (cfgs if tier != "quick" else cfgs[:1]):
         if True:
             # garble run / garble test on mod1
